@@ -24,8 +24,10 @@ TIERS = {
     # takes ~30 s here (a verdict must not flip to "unknown" under load); easy obligations finish in the first 5 % slice either way
     # z3's rlimit (a deterministic amount of work) is what bounds a query; the wall-clock timeouts are only a safety net and deliberately far
     # above what the rlimit allows on this machine, so that verdicts do not depend on the speed or load of the machine
-    "quick": dict(rlimit=200_000_000, timeout_ms=600_000, cvc5=True, ob_s=1500),
-    "thorough": dict(rlimit=1_000_000_000, timeout_ms=1_800_000, cvc5=True, ob_s=4000),
+    # (slowest obligation of the unchanged tree: ~80 s of solver time here; an obligation that is FALSE on a changed tree uses its whole budget,
+    # which is what ob_s caps)
+    "quick": dict(rlimit=200_000_000, timeout_ms=300_000, cvc5=True, ob_s=420),
+    "thorough": dict(rlimit=1_000_000_000, timeout_ms=900_000, cvc5=True, ob_s=2400),
 }
 
 
